@@ -577,7 +577,7 @@ class Gen:
         nd = A.ndim
         h = self.new()
         f = r.choice(self.p.get("views", ["getitem", "getitem", "reshape", "T", "transpose", "swapaxes", "moveaxis",
-                                           "squeeze", "expand_dims", "ravel", "diag", "broadcast_to"]))
+                                           "squeeze", "expand_dims", "ravel", "diag", "broadcast_to", "atleast"]))
         s = {"k": "op", "h": h, "f": f, "a": [{"h": a}]}
         if f == "getitem":
             s["ix"] = self.basic_index(sh)
@@ -620,6 +620,11 @@ class Gen:
             if nd != 2 or sh[0] != sh[1]:
                 pass
                 return False
+        elif f == "atleast":
+            nds = [k for k in (1, 2, 3) if k > nd]     # only requests that really add axes (else: F-C04-1 territory)
+            if not nds:
+                return False
+            s["nd"] = r.choice(nds)
         elif f == "broadcast_to":
             # stretch axes of length 1 (inner ones too) and/or prepend an axis
             tgt = [r.choice([2, 3]) if (d == 1 and r.random() < 0.7) else d for d in sh]
@@ -629,7 +634,7 @@ class Gen:
                 return False
             s["sh"] = tgt
         vc = self.const[a]
-        if f in ("reshape", "transpose", "swapaxes", "squeeze", "expand_dims", "ravel", "moveaxis") and \
+        if f in ("reshape", "transpose", "swapaxes", "squeeze", "expand_dims", "ravel", "moveaxis", "atleast") and \
                 r.random() < self.p.get("p_kw_const_view", 0.0) and A.dtype.kind == "f":
             flag = r.choice(["true", "false"])
             s["kw"] = {"constant": flag}
